@@ -70,6 +70,7 @@ var trapKinds = []trapKind{
 	23: {"i32.rem_s/0", "integer divide by zero"},
 	24: {"i64.trunc_f64_u-neg", "integer overflow"},
 	25: {"i64.trunc_f32_s-nan", "invalid conversion to integer"},
+	26: {"atomic.wait32-unshared", "expected shared memory"},
 }
 
 type guestOpts struct {
@@ -94,6 +95,7 @@ func buildGuest(o guestOpts) []byte {
 	m.Tables = []wenc.TableType{{Elem: wenc.FuncRef, Lim: wenc.Limits{Min: tableSize, Max: tableSize, HasMax: true}}}
 	m.Globals = []wenc.Global{{Type: wenc.GlobalType{Type: i64, Mutable: true}, Init: wenc.ConstI64(0)}}
 	tI32 := m.AddType(nil, []byte{i32})
+	m.Exports = append(m.Exports, wenc.Export{Name: "mem", Kind: wenc.ExtMemory, Idx: 0}, wenc.Export{Name: "g0", Kind: wenc.ExtGlobal, Idx: 0})
 
 	code := func() *wenc.Code { return &wenc.Code{} }
 	// counter += k
@@ -174,6 +176,7 @@ func buildGuest(o guestOpts) []byte {
 	kase(23, func(c *wenc.Code) { c.I32Const(-5); z(c, 0).Op(0x6f).Drop() })
 	kase(24, func(c *wenc.Code) { c.F64(-1.5).Op(0xb1).Drop() })
 	kase(25, func(c *wenc.Code) { c.F32Const(0xffc00001).Op(0xae).Drop() })
+	kase(26, func(c *wenc.Code) { z(c, 16).I32Const(0).I64Const(1000).Prefixed(0xfe, 0x01).U32(2).U32(0).Drop() })
 	// post effects (never reached for a valid kind)
 	bump(c, postTrap)
 	c.LocalGet(1).LocalGet(2).I64Const(-1).Op(0x85).Mem(0x37, 3, 0)
